@@ -6,6 +6,7 @@
 (*             (then s is open), otherwise answered CLOSED(s), not         *)
 (*             forwarded, nothing changes                                  *)
 (*   CLOSE s : forwarded, s is no longer open                              *)
+(*   COUNT s : forwarded, nothing changes (a one-shot query)               *)
 (* State is per connection.                                                *)
 (***************************************************************************)
 EXTENDS Integers, Sequences, FiniteSets, TLC, Json
@@ -23,6 +24,8 @@ Next == \E s \in Subs :
              /\ (Export => PrintT(ToJson([n |-> n, s |-> open, a |-> "REQ", x |-> s, fwd |-> ReqFwd(open, n, s), t |-> open'])))
           \/ /\ open' = open /\ n' = n      \* a REQ that an outer limit of the chain (max_filters) refuses never reaches the quota
              /\ (Export => PrintT(ToJson([n |-> n, s |-> open, a |-> "REQX", x |-> s, fwd |-> FALSE, t |-> open'])))
+          \/ /\ open' = open /\ n' = n      \* COUNT is a one-shot query: always forwarded, it opens nothing
+             /\ (Export => PrintT(ToJson([n |-> n, s |-> open, a |-> "COUNT", x |-> s, fwd |-> TRUE, t |-> open'])))
           \/ /\ open' = AfterClose(open, s) /\ n' = n
              /\ (Export => PrintT(ToJson([n |-> n, s |-> open, a |-> "CLOSE", x |-> s, fwd |-> TRUE, t |-> open'])))
 Spec == Init /\ [][Next]_<<open, n>>
